@@ -237,11 +237,40 @@ func (f *Frame) exit(e Exit) {
 		return
 	}
 	if e.Panic && len(f.defers) > 0 {
-		// deferred calls run on the panic path too
-		st := f.runDefers(State{e.PC, e.Heap}, true)
+		// deferred calls run on the panic path too; one of them may recover
+		ctx := &deferCtx{panicking: true, pv: e.PV}
+		st := f.runDefersCtx(State{e.PC, e.Heap}, ctx)
+		if st.PC.S == "false" {
+			return
+		}
+		if ctx.recovered {
+			if f.fn.Recover == nil {
+				f.fail("recover() without a recover block")
+				return
+			}
+			// control resumes in the recover block, which returns the named results
+			saved := f.defers
+			f.defers = nil
+			f.runRecoverBlock(st)
+			f.defers = saved
+			return
+		}
 		e.PC, e.Heap = st.PC, st.Heap
 	}
 	f.exits = append(f.exits, e)
+}
+
+// runRecoverBlock executes fn.Recover (loads of the named results + return).
+func (f *Frame) runRecoverBlock(st State) {
+	b := f.fn.Recover
+	in := map[*ssa.BasicBlock][]edge{}
+	for _, ins := range b.Instrs {
+		var term bool
+		st, term = f.step(ins, st, in)
+		if term {
+			return
+		}
+	}
 }
 
 func (f *Frame) notePanic(ins *ssa.Panic, st State) {
@@ -475,6 +504,9 @@ func (f *Frame) value(ins ssa.Value, st State) (Val, State) {
 			}
 			return Val{T: wrapInt(ins.Type(), Neg(f.val(ins.X).T), false)}, st
 		case token.MUL: // load
+			if g, ok := ins.X.(*ssa.Global); ok && g.Pkg != nil && g.Pkg.Pkg.Path() == "io" && g.Name() == "EOF" {
+				return Val{T: f.ioEOF()}, st
+			}
 			p := f.val(ins.X)
 			f.nilCheck(p, st, ins)
 			f.guardCheck(p, st, false, ins)
@@ -874,4 +906,22 @@ func (f *Frame) zeroArr(es Sort) Term {
 	o, i := Term{"o", SInt}, Term{"i", SInt}
 	f.vc.Assume(Forall([]Term{o, i}, Eq(f.w.Sorts.Elt(a, o, i), z), []Term{f.w.Sorts.Elt(a, o, i)}))
 	return a
+}
+
+// ioEOF is the value of the global io.EOF: a fixed non-nil error whose dynamic
+// type is *errors.errorString (assumed never reassigned); declared in every query.
+func (f *Frame) ioEOF() Term {
+	f.vc.Trusted["io.EOF is never reassigned and holds a *errors.errorString"] = true
+	return Term{"io.EOF!", SIface}
+}
+
+func (w *World) ioEOFDecl() string {
+	out := "(declare-const io.EOF! Iface)\n"
+	if p := w.AllTypes["errors"]; p != nil {
+		if o := p.Scope().Lookup("errorString"); o != nil {
+			tag := w.Sorts.Tag(types.NewPointer(o.Type()))
+			out += fmt.Sprintf("(assert (and (= (itag io.EOF!) %d) (> (ival io.EOF!) 0)))\n", tag)
+		}
+	}
+	return out
 }
